@@ -477,6 +477,21 @@ class MLists(Model):
           up[self.v("c%d_%d" % (j, c))] = B.ite(me, B.ite(B.ult(K(c), ln), elem(K(c)), B.ite(B.eq(K(c), ln), x, K(0))), st[self.v("c%d_%d" % (j, c))])
       room = B.and_(B.ule(nx, K(self.nlists)), B.ult(ln, K(self.cells)))
       return [(room, "ok", nx, up), (B.not_(room), "exc:ModelCapacity", None, {})]
+    if op == "assign_from":      # lst[:] = other_list: one C-level call copies the live contents of the other list (number 0: an empty sequence)
+      src = args[1]
+      up = {}
+      for j in range(self.nlists):
+        me = B.eq(li, K(j + 1))
+        slen = K(0)
+        for j2 in reversed(range(self.nlists)):
+          slen = B.ite(B.eq(src, K(j2 + 1)), lens[j2], slen)
+        up[self.v("len%d" % j)] = B.ite(me, slen, lens[j])
+        for c in range(self.cells):
+          sc_ = K(0)
+          for j2 in reversed(range(self.nlists)):
+            sc_ = B.ite(B.eq(src, K(j2 + 1)), st[self.v("c%d_%d" % (j2, c))], sc_)
+          up[self.v("c%d_%d" % (j, c))] = B.ite(me, B.ite(B.ult(K(c), slen), sc_, K(0)), st[self.v("c%d_%d" % (j, c))])
+      return [(T, "ok", K(NONE), up)]
     if op == "replace":          # lst[:] = [...]: one C-level call; args: list, new length, new cells
       n2, new = args[1], args[2:]
       up = {}
